@@ -176,6 +176,63 @@ hex_harness! {
     }
 }
 
+/// One task step whose id has exactly `W` significant bits (so that every length in the encoder and
+/// decoder is concrete for the solver and only the id's value is symbolic), followed by a random marker.
+fn roundtrip_width<const W: u32>() {
+    let id: usize = kani::any();
+    kani::assume(usize::BITS - id.leading_zeros() == W || (W == 1 && id == 0));
+    let mut steps = Vec::with_capacity(2);
+    steps.push(ScheduleStep::Task(TaskId::from(id)));
+    steps.push(ScheduleStep::Random);
+    roundtrip(5, steps);
+}
+
+/// Encoder alone: a task id of `W` significant bits is serialised without crashing and with the
+/// documented header (magic, id width, step count).
+fn serialize_width<const W: u32>() {
+    let id: usize = kani::any();
+    kani::assume(usize::BITS - id.leading_zeros() == W);
+    let mut steps = Vec::with_capacity(1);
+    steps.push(ScheduleStep::Task(TaskId::from(id)));
+    let s = Schedule { seed: 5, steps };
+    let enc = serialize_schedule(&s);
+    #[cfg(kani)]
+    {
+        let bytes = unsafe { HEX_BYTES.take() }.unwrap();
+        assert!(bytes[0] == SCHEDULE_MAGIC_V2 && bytes[1] == W as u8 && bytes[2] == 1 && bytes[3] == 5,
+            "C16: serialised header is wrong");
+        std::mem::forget(bytes);
+    }
+    std::mem::forget(enc);
+    std::mem::forget(s);
+}
+
+hex_harness! {
+    #[kani::unwind(12)]
+    fn c16_serialize_width64() { serialize_width::<64>(); }
+}
+hex_harness! {
+    #[kani::unwind(12)]
+    fn c16_serialize_width9() { serialize_width::<9>(); }
+}
+
+hex_harness! {
+    #[kani::unwind(12)]
+    fn c16_roundtrip_width64() { roundtrip_width::<64>(); }
+}
+hex_harness! {
+    #[kani::unwind(12)]
+    fn c16_roundtrip_width63() { roundtrip_width::<63>(); }
+}
+hex_harness! {
+    #[kani::unwind(12)]
+    fn c16_roundtrip_width8() { roundtrip_width::<8>(); }
+}
+hex_harness! {
+    #[kani::unwind(12)]
+    fn c16_roundtrip_width1() { roundtrip_width::<1>(); }
+}
+
 hex_harness! {
     #[kani::unwind(12)]
     fn c16_roundtrip_2steps() {
